@@ -478,6 +478,7 @@ impl<B: MysqlShim<RW>, RW: Read + Write> MysqlIntermediary<B, RW> {
                             format!("asked to execute unknown statement {}", stmt),
                         )
                     })?;
+                    params::validate(params, state)?;
                     {
                         let params = params::ParamParser::new(params, state);
                         let w = QueryResultWriter::new(&mut self.rw, true);
